@@ -47,14 +47,14 @@ func goTestOverlay(pkgDir, testName, src, run string, timeout time.Duration) (st
 	if err := os.WriteFile(tf, []byte(src), 0o644); err != nil {
 		return "", err
 	}
-	ov := map[string]map[string]string{"Replace": {filepath.Join("/repo", pkgDir, testName): tf}}
+	ov := map[string]map[string]string{"Replace": {filepath.Join(repoDir, pkgDir, testName): tf}}
 	ovb, _ := json.Marshal(ov)
 	ovf := filepath.Join(tmp, "ov.json")
 	os.WriteFile(ovf, ovb, 0o644)
 	ctx, cancel := context.WithTimeout(context.Background(), timeout+30*time.Second)
 	defer cancel()
 	cmd := exec.CommandContext(ctx, "go", "test", "-overlay", ovf, "-vet=off", "-count=1", "-timeout", fmt.Sprintf("%ds", int(timeout.Seconds())), "-run", run, "-v", "./"+pkgDir)
-	cmd.Dir = "/repo"
+	cmd.Dir = repoDir
 	cmd.Env = append(os.Environ(), "GOFLAGS=-mod=mod", "GOPROXY=off")
 	var out bytes.Buffer
 	cmd.Stdout = &out
